@@ -51,6 +51,7 @@ class Interp:
         self.src, self.fe, self.cfg, self.notes = src, fe, cfg, notes
         self.counter = {}
         self.imports = None
+        self.guards = []          # stack of sets of Python names known to be truthy (hence not None) on the current path
 
     # ------------------------------------------------------------------ naming
     def fresh(self, pyname):
@@ -130,12 +131,22 @@ class Interp:
             op = n.ops[0]
             if a.kind == 'opaque' or b.kind == 'opaque':
                 return ('opaque', a.why or b.why)
+            if a.kind == 'num' and b.kind == 'num' and isinstance(op, (ast.Lt, ast.LtE, ast.Gt, ast.GtE)):
+                # numbers: None < x raises TypeError, so both operands must be guarded by a truthiness test on this path
+                for side in (n.left, n.comparators[0]):
+                    if not (isinstance(side, ast.Name) and any(side.id in g for g in self.guards)):
+                        self.src.err(n, f'{self.src.seg(side)!r} may be None where it is compared (no truthiness test on the path)')
+                x, y = a.term, b.term
+                if isinstance(op, ast.Lt): return ('sym', f'(py_lt O {x} {y})')
+                if isinstance(op, ast.Gt): return ('sym', f'(py_lt O {y} {x})')
+                if isinstance(op, ast.LtE): return ('sym', f'(py_le O {x} {y})')
+                return ('sym', f'(py_le O {y} {x})')
             if a.kind == 'conc' and b.kind == 'conc':
                 if isinstance(op, (ast.Eq, ast.Is)):
                     return ('conc', a.term == b.term)
                 if isinstance(op, (ast.NotEq, ast.IsNot)):
                     return ('conc', a.term != b.term)
-            self.src.err(n, 'comparison is outside the subset (only ==, !=, is, is not between configuration values and literals)')
+            self.src.err(n, 'comparison is outside the subset (==, !=, is, is not between configuration values and literals; <, <=, >, >= between guarded numbers)')
         if isinstance(n, ast.Call) and isinstance(n.func, ast.Name) and not n.keywords:
             if n.func.id == 'isinstance' and len(n.args) == 2:
                 a = self.value(n.args[0], env, pure=True)
@@ -415,6 +426,8 @@ class Interp:
                     src.err(st, 'value stored in an unmodelled attribute is outside the subset')
                 return [], 0
             val = self.value(st.value, env)
+            for g in self.guards:
+                g.difference_update(keys)      # a re-bound name is no longer known to be truthy
             lines = []
             n = self.bind_value(keys[0], val, env, lines)
             for k in keys[1:]:
@@ -428,7 +441,7 @@ class Interp:
                 for key in self.assigned([st]):
                     env[key] = V('opaque', why=f'assigned under a condition the translator cannot evaluate ({c}; line {st.lineno})')
                 return [], 0
-            return self.join(st, f'if {c} then', 'else', st.body, st.orelse, env, catch=False)
+            return self.join(st, f'if {c} then', 'else', st.body, st.orelse, env, catch=False, guard=self.conjuncts(st.test))
         if isinstance(st, ast.Try):
             if st.finalbody or st.orelse or len(st.handlers) != 1 or st.handlers[0].type is not None:
                 src.err(st, 'only `try: ... except: ...` with a bare except is in the subset')
@@ -457,9 +470,21 @@ class Interp:
                     return False
         return True
 
-    def join(self, st, head, mid, body1, body2, env, catch):
+    def conjuncts(self, test):
+        """names that are truthy whenever `test` is"""
+        if isinstance(test, ast.Name):
+            return {test.id}
+        if isinstance(test, ast.BoolOp) and isinstance(test.op, ast.And):
+            out = set()
+            for v in test.values: out |= self.conjuncts(v)
+            return out
+        return set()
+
+    def join(self, st, head, mid, body1, body2, env, catch, guard=()):
         e1, e2 = dict(env), dict(env)
+        self.guards.append(set(guard))
         l1, c1 = self.block(body1, e1)
+        self.guards.pop()
         l2, c2 = self.block(body2, e2)
         keys = []
         for k in list(dict.fromkeys(list(e1) + list(e2))):
